@@ -84,8 +84,10 @@ def cases(draw):
         "elementwise_division", "inverse", "scalar_divide", "scalar_divide_scalar", "absolute_value", "kronecker_prod", "sigmoid",
         "norm", "reject_inner", "reject_outer", "reject_kron", "reject_div", "reject_out_alias"]))
     c = {"op": op}
+    if draw(st.integers(0, 5)) == 0:
+        c["after_refused"] = True
     if op == "einsum":
-        return draw(einsum_case())
+        return dict(draw(einsum_case()), **c)
     if op in ("make_complex", "conj", "inverse", "absolute_value", "elementwise_mult", "scalar_mult", "elementwise_division",
               "scalar_divide", "scalar_mult_out", "make_complex_numpy", "sigmoid"):
         sh = draw(shape_st(0, 3))
@@ -156,6 +158,8 @@ def cases(draw):
         sh = draw(shape_st(0, 2))
         c["a"], c["b"] = draw(operand(sh)), draw(operand(sh))
         c["alias"] = draw(st.sampled_from(["x", "y"]))
+    if not op.startswith("reject") and draw(st.integers(0, 60)) == 0 and len(c["a"]["re"]) <= 16:
+        c["many_calls"] = draw(st.sampled_from([130, 260]))
     return c
 
 
@@ -216,9 +220,28 @@ def verify_held():
                 f"{what}: a result returned by an earlier call no longer holds its value after later calls of the same function")
 
 
+def refused_calls():
+    """after an exception: the documented refusals (ValueError for unsupported ranks / shapes, RuntimeError for an aliasing out=), caught
+    as a caller would - the functions keep no state, so every later call is unaffected"""
+    from qucumber.utils import cplx
+    m, v, r3 = torch.ones(2, 2, 2, dtype=torch.double), torch.ones(2, 3, dtype=torch.double), torch.ones(2, 2, 2, 2, dtype=torch.double)
+    for f in (lambda: cplx.norm_sqr(m), lambda: cplx.norm(r3), lambda: cplx.inner_prod(v, m), lambda: cplx.outer_prod(m, v),
+              lambda: cplx.kronecker_prod(v, m), lambda: cplx.elementwise_division(v, m), lambda: cplx.scalar_mult(v, v, out=v),
+              lambda: cplx.matmul(v, r3), lambda: cplx.einsum("ij,jk->ik", v, v), lambda: cplx.make_complex(v[0], m[0])):
+        try:
+            f()
+        except Exception:
+            pass
+
+
 def check(case):
     del HELD[:]
+    if case.get("after_refused"):
+        refused_calls()
     r = check_once(case)
+    if case.get("many_calls") and not case["op"].startswith("reject"):
+        for _ in range(case["many_calls"]):          # long time axis: well over a hundred consecutive calls in one process
+            check_once(case)
     if not case["op"].startswith("reject") and case.get("a") is not None and len(case["a"]["re"]) <= 64:
         for _ in range(4):        # five applications with identical operands in total: the kernel keeps no state ...
             check_once(case)
